@@ -157,9 +157,9 @@ def digest(*parts):
     return h[:10]
 
 
-def call_digest(nid, args, kwargs):
+def call_digest(nid, args, kwargs, version=0):
     return digest(
-        str(nid),
+        str(nid) if not version else f"{nid}@v{version}",
         ",".join(canon(a) for a in args),
         ",".join(f"{k}={canon(v)}" for k, v in kwargs),
     )
